@@ -90,7 +90,9 @@ package handler
 //@   let finished = calls(Bytes) == 1
 //@   loop 1 iteration-ensures [header-copied] has(dst, k) && dst[k] == vv
 //@   ensures [websocket-bypass] ret(Get) == "websocket" ==> calls(h.handler.ServeHTTP, w, r) == 1 && calls("go (*timeoutHandler).ServeHTTP$1") == 0
-//@   ensures [finished-first-flushes-buffer] finished ==> calls(w.WriteHeader) == 1 && arg(w.WriteHeader, 0) == ite(old(true) && tw.wroteHeader, tw.code, 200) && calls(w.Write) == 1 && arg(w.Write, 0) == ret(Bytes) && before(WriteHeader, Write) && calls(ErrorCtx) == 0 && !tw.timedOut
+// (what the handler recorded is read under tw.mu, after the handler goroutine's writes have become visible)
+//@   let locked = on("lock", tw.mu)
+//@   ensures [finished-first-flushes-buffer] finished ==> calls(w.WriteHeader) == 1 && arg(w.WriteHeader, 0) == ite(at(locked, tw.wroteHeader), at(locked, tw.code), 200) && calls(w.Write) == 1 && arg(w.Write, 0) == ret(Bytes) && before(WriteHeader, Write) && calls(ErrorCtx) == 0 && tw.timedOut == at(locked, tw.timedOut) && before(locked, WriteHeader)
 //@   ensures [timeout-discards-buffer] calls(ErrorCtx) == 1 ==> tw.timedOut && calls(Bytes) == 0 && calls(w.Write) == 0 && calls(w.WriteHeader) == 0 && arg(ErrorCtx, 1) == w && before(on("lock", tw.mu), ErrorCtx)
 //@   ensures [one-outcome] ret(Get) != "websocket" ==> calls(Bytes) + calls(ErrorCtx) == 1 && calls("go (*timeoutHandler).ServeHTTP$1") == 1
 //@   ensures [context-released] ret(Get) != "websocket" ==> calls(cancelCtx) == 1
